@@ -60,7 +60,9 @@ CHECKS = {
             "none and changes nothing when nothing is deferred; deferred events are not dispatched without a "
             "recall (any operation list, charts whose handlers do not recall); deferral order is kept. The "
             "order statements need the explicit hypothesis that the defer queue (a bounded deque) does not "
-            "overflow; C15_witness_defer_overflow proves it necessary.", "§8 C15",
+            "overflow; C15_witness_defer_overflow proves it necessary. Re-entrant recall (model Queue.EagerRecall: a chart stepped at "
+            "every post whose handler recalls): every deferred event dispatched at most once, nothing lost, deferral order kept, for "
+            "every handler predicate and op list (generated tag recallPopsFirst); witnesses for peek-then-post-then-pop.", "§8 C15",
             NOTE_L1 + " collections.deque(maxlen) semantics are modelled, not verified."),
     "C16": ("Lean 4 invariant proofs (bounds, placement on full queues) + per-operation correspondence",
             "Theorems: after any operation list queue and defer queue hold at most cap entries (also at every "
